@@ -34,6 +34,15 @@ HARNESSES = [
                      unwind=n + 2,
                      tier="quick" if (n, g) in ((1, 3), (512, 8194), (513, 3)) else "thorough")
                 for n in (1, 2, 511, 512, 513, 1024, 1025) for g in (3, 8194)]),
+    dict(name="dir_add", file="dir_add.c", label="proved", timeout=170, unwind=4,
+         cases=[dict(id="all", tier="quick")]),
+    dict(name="dir_end", file="dir_end.c", label="bounded(entries<=3,name<=4)",
+         timeout=300, unwind=13,
+         pre_instrument_flags=["--replace-calls", "get_conseq_entry_count:stub_conseq"],
+         cases=[dict(id="r%d%d%d" % r, defines={"R0": r[0], "R1": r[1], "R2": r[2]},
+                     tier="quick" if sum(r) <= 2 or r == (2, 1, 0) else "thorough")
+                for r in ((1, 0, 0), (2, 0, 0), (1, 1, 0), (3, 0, 0), (2, 1, 0),
+                          (1, 2, 0), (1, 1, 1))]),
     dict(name="dir_run", file="dir_run.c", label="proved", timeout=1200,
          nochecks=["--conversion-check"], weight=20,
          cases=[dict(id="n257", defines={"DR_N": 257}, unwind=258, tier="quick",
